@@ -7,7 +7,8 @@ from ..core import rxmodel
 from ..core.loader import AnalysisError
 from ..core.table import memo_shared, extract, grid_compare, inexact_notes
 from ..core.termeval import ev, Raised, CannotEval
-from ..core.values import K, T, Obj, TupleV, ListV, DictV, ExtRef, show
+from ..core.values import (K, T, Obj, TupleV, ListV, DictV, ExtRef, NTupleV,
+                           show)
 from .c11 import _netaddr_hook, _v6
 
 MOD = 'netutils'
@@ -317,10 +318,12 @@ def _urlsplit(ctx):
                 val = {url: u, scheme: sc, af: a}
                 try:
                     o = outcome_at(outcomes, val, HOOKS)
-                    if o.kind != 'return' or not isinstance(o.value, Obj):
+                    if o.kind != 'return' or not isinstance(
+                            o.value, (Obj, NTupleV)):
                         bad = bad or (u, sc, a, o.brief(), '')
                         continue
-                    args = o.value.fields.get('args')
+                    args = o.value if isinstance(o.value, NTupleV) else \
+                        o.value.fields.get('args')
                     got = tuple(ev(x, val, HOOKS) for x in args.items)
                 except (CannotEval, Raised) as e:
                     rep.undecided('R15.3', 'urlsplit', str(e))
@@ -343,7 +346,8 @@ def _urlsplit(ctx):
     for o in outcomes:
         if o.kind == 'return':
             rep.check('R15.3', 'urlsplit:result-type',
-                      isinstance(o.value, Obj) and o.value.cls is cls,
+                      isinstance(o.value, (Obj, NTupleV)) and
+                      o.value.cls is cls,
                       'the result is the params()-capable split result')
 
 
@@ -359,7 +363,8 @@ def _params(ctx):
     for q in queries:
         for collapse in (True, False):
             def thunk(interp):
-                obj = Obj(cls, {'query': K(q)}, label='split')
+                obj = interp.call(cls, [K('http'), K('host'), K('/p'), K(q),
+                                        K('')])
                 return interp.call(interp.get_attr(obj, 'params'),
                                    [K(collapse)])
             outcomes, _i = extract(world, thunk, setup=_setup())
